@@ -226,7 +226,7 @@ class Evaluator:
             env = self.fn_env(path)
             st = _State(env)
             t = self.ev(self.prog.root(path), st, 0)
-            return t, self.trace, self.conds
+            return t, _prefer_resolved(self.trace), _prefer_resolved(self.conds)
         finally:
             self.trace, self.conds = old
 
@@ -631,6 +631,38 @@ def _assigned_vars(e):
     return out
 
 
+def _has_cparam(t):
+    return any(x.k == "cparam" for x in subterms(t))
+
+
+def _prefer_resolved(terms_):
+    """A closure body is explored once with placeholder parameters and again wherever the closure is really
+    applied: for one THIR node keep the applied (placeholder-free) versions when there are any."""
+    by_node = {}
+    for t in terms_:
+        by_node.setdefault(id(t.n) if t.n is not None else id(t), []).append(t)
+    out = []
+    seen = set()
+    for t in terms_:
+        key = id(t.n) if t.n is not None else id(t)
+        group = by_node[key]
+        ncp = [sum(1 for y in subterms(x) if y.k == "cparam") for x in group]
+        keep = [x for x, n in zip(group, ncp) if n == min(ncp)]
+        for x in keep:
+            if id(x) not in seen and x in keep:
+                if any(x is y for y in keep):
+                    pass
+        if key in seen:
+            continue
+        seen.add(key)
+        uniq = []
+        for x in keep:
+            if x not in uniq:
+                uniq.append(x)
+        out.extend(uniq)
+    return out
+
+
 class _State:
     def __init__(self, env):
         self.env = env
@@ -741,3 +773,65 @@ def alts(t):
         else:
             out.append(x)
     return out
+
+
+# ------------------------------------------------------------------ substitution / partial evaluation
+
+def rebuild(t, f):
+    """Bottom-up map over a term: f is applied to every rebuilt node."""
+    if not isinstance(t, Tm):
+        return t
+    k = t.k
+    if k == "match":
+        new = Tm("match", (rebuild(t.a[0], f), tuple((p, rebuild(g, f) if g is not None else None, rebuild(b, f)) for p, g, b in t.a[1])), t.n)
+    elif k == "adt":
+        new = Tm("adt", (t.a[0], t.a[1], tuple((n, rebuild(v, f)) for n, v in t.a[2])), t.n)
+    elif k in ("lit", "const", "param", "var", "upvar", "loopvar", "opaque", "fnitem", "closure", "cparam"):
+        new = t
+    else:
+        new = Tm(k, [rebuild(x, f) if isinstance(x, Tm) else x for x in t.a], t.n, t.env)
+    return f(new)
+
+
+def subst(t, mapping):
+    """Replace sub-terms equal to a key of mapping by its value, then simplify constants."""
+    def f(x):
+        for k, v in mapping.items():
+            if x == k:
+                return v
+        return simplify1(x)
+    return rebuild(t, f)
+
+
+def _bool(t):
+    if isinstance(t, Tm) and t.k == "lit" and t.a[0] == "bool":
+        return t.a[1] == "true"
+    return None
+
+
+def simplify1(x):
+    if x.k == "un" and x.a[0] == "Not":
+        b = _bool(x.a[1])
+        if b is not None:
+            return Tm("lit", ("bool", "false" if b else "true"), x.n)
+    if x.k == "if":
+        b = _bool(x.a[0])
+        if b is not None:
+            return x.a[1] if b else x.a[2]
+    if x.k == "logic":
+        l, r = _bool(x.a[1]), _bool(x.a[2])
+        if x.a[0] == "And":
+            if l is False or r is False:
+                return Tm("lit", ("bool", "false"), x.n)
+            if l is True:
+                return x.a[2]
+            if r is True:
+                return x.a[1]
+        if x.a[0] == "Or":
+            if l is True or r is True:
+                return Tm("lit", ("bool", "true"), x.n)
+            if l is False:
+                return x.a[2]
+            if r is False:
+                return x.a[1]
+    return x
